@@ -1,10 +1,114 @@
 (* C13 -- ABI type strings are accepted exactly when valid, and normalise idempotently.
-   Statements only; proofs live in AbiType/Proofs*.v. *)
+   Statements only; proofs live in AbiType/Proofs*.v.
+
+   Reading guide.  [Validate : param -> res tcomp] is the model of abi.Parameter.Validate /
+   TypeComponentTree (AbiType/Model.v, elementary table from Gen/AbiConsts.v); a [param] is an ABI JSON
+   parameter object: type text (ANY byte string) + components (ANY tree).  [ty], [wf_ty] are the shared
+   spec types (Abi/Types.v); [spelling t s comps], [canonical t], [dec], [valid_type] the grammar of
+   AbiType/Spec.v ([valid_type t = wf_ty t && dims_ok t]; [dims_ok]: fixed array dimensions < 2^32, the
+   stated implementation limit).  [ty_of : tcomp -> option ty] (AbiType/Abs.v) reads a type component
+   tree as a spec type -- the "tc ~ t" of the property; [normalise tc] is the parameter object that
+   spells tc in normal form. *)
+From Coq Require Import String.
 From Coq Require Import List NArith Bool Arith.
 From Coq Require Import Init.Byte.
-From FFS Require Import Base.Res Base.Bytes Abi.Types AbiType.Syntax AbiType.Spec AbiType.Model AbiType.Abs AbiType.Proofs.
+From FFS Require Import Base.Res Base.Bytes Abi.Types AbiType.Syntax AbiType.Spec AbiType.Model AbiType.Abs
+  AbiType.ProofsDec AbiType.ProofsMain.
 Import ListNotations.
 
-Theorem C13_empty_type_rejected : forall comps, Validate (Param [] comps) = Err EUnsupportedType.
-Proof. exact empty_type_rejected. Qed.
-Print Assumptions C13_empty_type_rejected.
+(* 1. Validation never panics (and the model never runs out of fuel): any bytes as type text, any
+      component tree; likewise the signature string and whole-ABI validation. *)
+Theorem C13_total :
+  (forall p : param, Validate p <> Panic /\ Validate p <> Err EOutOfFuel) /\
+  (forall p : param, SignatureString p <> Panic /\ SignatureString p <> Err EOutOfFuel) /\
+  (forall a : list entry, ABIValidate a <> Panic /\ ABIValidate a <> Err EOutOfFuel).
+Proof. split; [exact validate_total|]. split; [exact signature_total|exact abi_validate_total]. Qed.
+Print Assumptions C13_total.
+
+(* 2. A type text (with its components) is accepted as the type t exactly when t is a valid type of
+      the grammar and the text is one of its spellings. *)
+Theorem C13_accept_iff_grammar :
+  forall (s : bytes) (comps : list param) (t : ty),
+    (exists tc, Validate (Param s comps) = Ok tc /\ ty_of tc = Some t) <->
+    (valid_type t = true /\ spelling t s comps).
+Proof. exact accept_iff_grammar_ty. Qed.
+Print Assumptions C13_accept_iff_grammar.
+
+(* 2b. Everything accepted is read as some valid type that the input spells ... *)
+Theorem C13_accepted_is_typed :
+  forall p tc, Validate p = Ok tc ->
+    exists t, ty_of tc = Some t /\ valid_type t = true /\ spelling t (p_type p) (p_comps p).
+Proof. exact accepted_is_typed. Qed.
+Print Assumptions C13_accepted_is_typed.
+
+(* 2c. ... and an error is reported exactly for the inputs that spell no valid type. *)
+Theorem C13_reject_iff_not_grammar :
+  forall s comps,
+    (exists e, Validate (Param s comps) = Err e) <->
+    ~ (exists t, valid_type t = true /\ spelling t s comps).
+Proof. exact reject_iff_not_grammar. Qed.
+Print Assumptions C13_reject_iff_not_grammar.
+
+(* 3. The rendered signature of an accepted type is its canonical spelling. *)
+Theorem C13_render_canonical :
+  forall p tc t, Validate p = Ok tc -> ty_of tc = Some t ->
+    tc_string tc = Ok (canonical t) /\ SignatureString p = Ok (canonical t).
+Proof. exact render_canonical. Qed.
+Print Assumptions C13_render_canonical.
+
+(* 4. Normalisation is idempotent: the normal form of an accepted type parses to the identical type
+      component tree and renders to the same signature.  (For tuples the normal form is "tuple" +
+      dimensions with normalised components, since "(a,b)" is a rendering, not an input spelling.) *)
+Theorem C13_reparse_idempotent :
+  forall p tc, Validate p = Ok tc ->
+    exists p', normalise tc = Ok p' /\ Validate p' = Ok tc /\ SignatureString p' = SignatureString p.
+Proof. exact reparse_idempotent. Qed.
+Print Assumptions C13_reparse_idempotent.
+
+(* 4b. Without tuples, the rendered signature itself parses back to the identical tree (whatever the
+      components). *)
+Theorem C13_reparse_signature :
+  forall p tc, Validate p = Ok tc -> tuple_free tc = true ->
+    exists sig, tc_string tc = Ok sig /\ forall comps', Validate (Param sig comps') = Ok tc.
+Proof. exact reparse_signature_tuple_free. Qed.
+Print Assumptions C13_reparse_signature.
+
+(* 5. The numerals of the grammar are canonical decimal: [dec n] is the one digit string without
+      leading zeros whose value is n (so "008", "+8", " 8" spell nothing). *)
+Theorem C13_numerals_canonical :
+  forall n s, is_dec n s <-> s = dec n.
+Proof. exact is_dec_iff. Qed.
+Print Assumptions C13_numerals_canonical.
+
+(* ---------- non-vacuity ---------- *)
+Definition ex_param : param :=
+  Param (T "tuple[2][]") [Param (T "uint") []; Param (T "fixed128x18[3]") [];
+                          Param (T "tuple") [Param (T "bytes32") []; Param (T "string[]") [Param (T "junk") []]]].
+Definition ex_ty : ty :=
+  TDynArr (TFixedArr (TTuple [TUInt 256; TFixedArr (TFixed 128 18) 3; TTuple [TBytesN 32; TDynArr TString]]) 2).
+
+Example C13_nonvacuous_accept :
+  exists tc, Validate ex_param = Ok tc /\ ty_of tc = Some ex_ty /\ valid_type ex_ty = true /\
+             tuple_free tc = false /\
+             SignatureString ex_param = Ok (T "(uint256,fixed128x18[3],(bytes32,string[]))[2][]").
+Proof. eexists. split; [vm_compute; reflexivity|]. repeat split; vm_compute; reflexivity. Qed.
+
+Example C13_nonvacuous_grammar :
+  valid_type (TFixedArr (TUInt 256) 7) = true /\ spelling (TFixedArr (TUInt 256) 7) (T "uint[7]") [].
+Proof.
+  split; [reflexivity|]. cbn [spelling]. exists (T "uint"). split; [right; split; reflexivity|].
+  vm_compute. reflexivity.
+Qed.
+
+Example C13_nonvacuous_tuple_free :
+  exists tc, Validate (Param (T "ufixed[4294967295][]") []) = Ok tc /\ tuple_free tc = true /\
+             tc_string tc = Ok (T "ufixed128x18[4294967295][]").
+Proof. eexists. split; [vm_compute; reflexivity|]. split; vm_compute; reflexivity. Qed.
+
+(* the former defects D13a / D13b and the other malformed classes of the quantifier are rejected *)
+Example C13_nonvacuous_reject :
+  forallb (fun s => is_err (Validate (Param (T s) [Param (T "uint8") []])))
+    ["uint008"; "bytes01"; "fixed128x018"; "uint256[007]"; "tuple7"; "tuple7[2]"; "uint0"; "uint7"; "uint264";
+     "uint65536"; "bytes0"; "bytes33"; "fixed8x81"; "fixed8x0"; "uint+8"; "uint 8"; "Uint8"; "uint8[";
+     "uint8[-1]"; "uint8[4294967296]"; "uint8[x]"; "address1"; "string32"; ""; "(uint8)"]%string = true.
+Proof. vm_compute. reflexivity. Qed.
